@@ -187,6 +187,12 @@ class Report:
               f"{self.discharged} inconclusive={len(self.inconclusive)} violations="
               f"{self.violations} known={len(self.known_hits)} paths={self.paths} "
               f"solver_s={self.solver_s:.2f} wall_s={time.time() - self.t0:.1f}", flush=True)
+        if self.harness_errors and self.violations:
+            # violations that replayed on the real library stand on their own; the candidates that
+            # did not replay are kept as notes (and in the evidence), they do not mask the alarm
+            for m in self.harness_errors[:10]:
+                print(f"HARNESS-NOTE {self.pid}: {m[:400]}", flush=True)
+            return EXIT_VIOLATION
         if self.harness_errors:
             for m in self.harness_errors[:10]:
                 print(f"HARNESS-ERROR {self.pid}: {m}", flush=True)
